@@ -126,7 +126,19 @@ class EluPlugin(PrimitiveLeafPlugin):
         ) -> Callable[..., ArrayLike]:
             if orig is None:
                 raise RuntimeError("Original jax.nn.elu not found")
-            return lambda *args, **kwargs: cls._PRIM.bind(*args, **kwargs)
+
+            def _patched(x: ArrayLike, *args: object, **kwargs: object) -> ArrayLike:
+                # jax.nn.elu(x, alpha) also takes its parameter positionally;
+                # only ``x`` is an operand of the primitive.
+                if len(args) > 1 or (args and "alpha" in kwargs):
+                    raise TypeError(
+                        "elu() takes x and an optional alpha argument"
+                    )
+                if args:
+                    kwargs["alpha"] = args[0]
+                return cls._PRIM.bind(x, **kwargs)
+
+            return _patched
 
         return [
             AssignSpec("jax.nn", "elu_p", cls._PRIM, delete_if_missing=True),
